@@ -12,9 +12,9 @@ import (
 	"github.com/thushan/olla/internal/adapter/stats"
 	"github.com/thushan/olla/internal/core/domain"
 	"github.com/thushan/olla/verifharness/ev"
-	"github.com/thushan/olla/verifharness/rig"
 	"github.com/thushan/olla/verifharness/gen"
 	"github.com/thushan/olla/verifharness/hx"
+	"github.com/thushan/olla/verifharness/rig"
 	"pgregory.net/rapid"
 )
 
